@@ -3,7 +3,7 @@ import uperlib as U
 
 
 def big_lengths(q):
-    return [127, 128, 16383, 16384, 16385, 65535, 65536] if q else \
+    return [127, 128, 16383, 16384, 16385, 65535, 65536, 81920, 81925] if q else \
         [127, 128, 129, 16383, 16384, 16385, 32767, 32768, 32769, 49152, 65535, 65536, 65537, 81920, 131071, 131072, 131073]
 
 
@@ -52,6 +52,8 @@ class C01(Spec):
                     cands.append(("list", ("int", 0, (True, 0, True, 7, False)), key))
                 for t in cands:
                     if q and ln > 16385 and t[0] in ("str", "list") and key != (-1, -1, False):
+                        continue
+                    if q and ln > 65536 and not (t[0] == "oct" and key == (-1, -1, False)):
                         continue
                     if t[0] == "oct":
                         v = ("oct", [(7 * i + 3) % 256 for i in range(ln)])
